@@ -270,6 +270,13 @@ fn check_expr(src: &str, want: &Phys, levels: usize, st: &mut Stats) -> Result<(
             format!("`{src}` has base units {} but dimensional analysis gives {}", p.vec, want.vec),
         ));
     }
+    if (raw.value.is_infinite() || raw.value == 0.0 || raw.value.abs() < 1e-300) && want.mag.is_finite() && want.mag != 0.0 {
+        // the value does not fit into an f64 *in the unit the result is expressed in* (sums are
+        // formed in the smaller unit, e.g. ronto-sievert^9): floating-point overflow/underflow,
+        // not a dimensional-analysis disagreement; generated, counted, left out
+        st.excluded("value-outside-f64-range-in-result-unit");
+        return Ok(());
+    }
     if !rel_close(p.mag, want.mag, tol) {
         return Err(Failure::new(
             "wrong-magnitude",
